@@ -287,9 +287,20 @@ def rule_header(run):
     else: run.unknown(key, 'table not found', where=su.where())
 
 
+def rule_nonetest(run):
+    run.rule('NONETEST', 'real-valued fields read from a record are tested for absence with `is None`, never by truthiness '
+             '(a coordinate of exactly 0.0 is legal)', floor=3)
+    from .io_common import nonetest_rule
+    prog = run.prog
+    tab = load_table(prog, 'mulgrids', 'mulgrid_format_specification')
+    for sec, kind, cls in PAIRS:
+        nonetest_rule(run, prog.func(M + 'read_' + sec), [tab])
+
+
 def check(run):
     run.guarded('DISP', rule_disp)
     run.guarded('RECSEQ', rule_recseq)
     run.guarded('FMAP', rule_fmap)
     run.guarded('BYNAME', rule_byname)
     run.guarded('HEADER', rule_header)
+    run.guarded('NONETEST', rule_nonetest)
